@@ -16,7 +16,14 @@
       frame optionally replaced by a malformed / unusual variant; Deliver(k) hands the reader an
       arbitrary next chunk, Eof ends the stream.  Invariants: ReadIsPrefixOfSent, LengthCountsBytes,
       Lossless, MalformedGivesError, NeverWaitsAfterEOF, NeverWaitsAfterCompleteFrame,
-      ChunkingIrrelevant.
+      ChunkingIrrelevant, IdsPreserved.
+
+   IDS ARE TYPED VALUES: every catalogue message carries id = [t |-> "num" | "str" | "none", v |-> text,
+   n |-> the integer the text denotes as a decimal int32 literal, or NoNum]; the string "7" and the number 7
+   are different ids, and the catalogue contains string ids whose text looks like a number ("7", "42",
+   "007", "-1").  DecId is ID.UnmarshalJSON applied to the JSON token the writer produced: as coded a string
+   token stays a string id whatever its text (IdDecode = "strict"); in the negative configuration
+   (IdDecode = "unquote") a quoted numeral decodes as that number, and IdsPreserved fails.
 
    Byte symbols (one symbol = one byte; wire position i is real byte i):
      "K"  the next expected letter of the header name Content-Length (a letter, never the '-')
@@ -29,9 +36,10 @@
 EXTENDS Integers, Sequences, FiniteSets, TLC, Json
 
 CONSTANTS Cap,        \* lengths 0..Cap are tracked exactly, Cap+1 stands for "more than Cap"
-          Msgs,       \* catalogue: sequence of [kind, idk, blen, rlen] (byte / rune length of the JSON body)
+          Msgs,       \* catalogue: sequence of [kind, idk, id, blen, rlen] (typed id; byte / rune length of the JSON body)
           MaxMsgs,    \* sequences of 1..MaxMsgs messages
           LenMode,    \* "bytes" (as coded) | "runes" (negative configuration)
+          IdDecode,   \* "strict" (as coded) | "unquote" (negative configuration: "7" decodes as the number 7)
           Variants,   \* set of variant names explored
           ChunkMax,   \* Deliver(k) for k in 1..ChunkMax, plus "to the end of the wire"
           AllCuts     \* TRUE: every truncation point; FALSE: the first/last two and the middle of each region
@@ -315,6 +323,16 @@ NeverWaitsAfterCompleteFrame ==
     \A i \in 1..Len(regions) :
         (pos >= regions[i].e /\ (var.kind \in GoodVariants \/ i < var.at)) => Len(read) >= i
 
+\* typed ids: what ID.UnmarshalJSON makes of the JSON token written for an id
+NoNum == 0 - 1000
+DecId(id) == IF id.t = "str" /\ IdDecode = "unquote" /\ id.n # NoNum
+             THEN [t |-> "num", v |-> ToString(id.n), n |-> id.n] ELSE id
+\* the ids of the messages handed over by the reader, and of the messages written
+ReadIds == [k \in 1..Len(read) |-> DecId(Msgs[read[k]].id)]
+SentIds == [k \in 1..Len(sent) |-> Msgs[sent[k]].id]
+\* the id read back is the id written, including its type (number vs string)
+IdsPreserved == \A k \in 1..Len(read) : k <= Len(sent) => ReadIds[k] = SentIds[k]
+
 \* the outcome is a function of the wire, not of how it was cut into chunks
 Outcome(w, regs) == LET f == Feed(w, regs, R0, <<>>, 0, 1, Len(w)) IN [read |-> f.read, err |-> AtEOF(f.r).err]
 ChunkingIrrelevant == Done => [read |-> read, err |-> r.err] = Outcome(wire, regions)
@@ -322,6 +340,6 @@ ChunkingIrrelevant == Done => [read |-> read, err |-> r.err] = Outcome(wire, reg
 Class(k) == IF k \in GoodVariants THEN "good" ELSE IF k \in LenientVariants THEN "lenient" ELSE "bad"
 
 Behaviour == [sent |-> sent, variant |-> var.kind, at |-> var.at, cut |-> var.cut, class |-> Class(var.kind),
-              wire |-> wire, chunks |-> chunks, read |-> read, err |-> r.err]
+              wire |-> wire, chunks |-> chunks, read |-> read, err |-> r.err, ids |-> ReadIds]
 PrintBehaviour == Done => PrintT(<<"BEH", ToJson(Behaviour)>>)
 =============================================================================
